@@ -41,9 +41,10 @@ import (
 //
 // File text (all in package p):
 //   message <M|N><i> { int32 x = 1; <variant part> }
-//   variant v: name M if v even else N;  (v/2)%5:
+//   variant v: name M if v even else N;  (v/2)%6:
 //     0 plain   1 a field of type M<j> for every import j   2 also `message Shared<v%4> {}`
 //     3 syntax error in the body   4 field of unknown type Zed
+//     5 `enum <M|N><i> { Z<i> = 0; }` instead of the message
 
 const incrqDescriptor = "google/protobuf/descriptor.proto"
 
@@ -69,6 +70,10 @@ type incrqEngine struct {
 	ex   *incremental.Executor
 	sess *ir.Session
 	ws   map[string]source.Workspace
+	// FDP keys are keyed by IR file identity: label = path + ordinal of that IR object among the
+	// IR objects of the path that ever got an FDP task in this executor
+	fdpLabel map[*ir.File]string
+	fdpCount map[string]int
 }
 
 func init() { Register("incr_queries", func() Engine { return &incrqEngine{} }) }
@@ -86,6 +91,8 @@ func (e *incrqEngine) fresh(p int) {
 	e.ex = incremental.New(incremental.WithParallelism(int64(p)))
 	e.sess = new(ir.Session)
 	e.ws = map[string]source.Workspace{}
+	e.fdpLabel = map[*ir.File]string{}
+	e.fdpCount = map[string]int{}
 }
 
 func incrqPath(i int) string { return fmt.Sprintf("f%d.proto", i) }
@@ -100,8 +107,14 @@ func incrqText(i int, imports []int, v int) string {
 	if v%2 == 1 {
 		name = "N"
 	}
+	if (v/2)%6 == 5 {
+		// the type is an ENUM of the same name: importers that use it stay valid but their field
+		// descriptors change (TYPE_MESSAGE <-> TYPE_ENUM)
+		fmt.Fprintf(&b, "enum %s%d {\n  Z%d = 0;\n}\n", name, i, i)
+		return b.String()
+	}
 	fmt.Fprintf(&b, "message %s%d {\n  int32 x = 1;\n", name, i)
-	switch (v / 2) % 5 {
+	switch (v / 2) % 6 {
 	case 1:
 		for n, j := range imports {
 			fmt.Fprintf(&b, "  M%d r%d = %d;\n", j, n, n+2)
@@ -112,7 +125,7 @@ func incrqText(i int, imports []int, v int) string {
 		b.WriteString("  Zed z = 9;\n")
 	}
 	b.WriteString("}\n")
-	if (v/2)%5 == 2 {
+	if (v/2)%6 == 2 {
 		fmt.Fprintf(&b, "message Shared%d {}\n", v%4)
 	}
 	return b.String()
@@ -175,7 +188,9 @@ func incrqCompile(ex *incremental.Executor, op source.Opener, sess *ir.Session, 
 	}
 	sort.Strings(each)
 	out.diags, out.nerr = strings.Join(each, "\n--\n"), nerr
-	if nerr == 0 && res[0].Fatal == nil {
+	{
+		// the descriptors always go through queries.FDS / queries.FDP (also for workspaces with
+		// errors: the partial descriptors of the two executors must agree as well)
 		var o fdp.Options
 		fr, _, err := incremental.Run(ctx, ex, queries.FDS{Opener: op, Session: sess, Workspace: ws, Options: o})
 		switch {
@@ -200,7 +215,7 @@ var (
 	incrqPtrRe  = regexp.MustCompile(`\(0x[0-9a-f]+\)`)
 )
 
-// abstractKey maps a query key to the abstract name used on the wire; "" = ignored (FDS, FDP).
+// abstractKey maps a query key to the abstract name used on the wire.
 func (e *incrqEngine) abstractKey(k any) string {
 	s := fmt.Sprintf("%#v", k)
 	pathIdx := func() string {
@@ -237,13 +252,51 @@ func (e *incrqEngine) abstractKey(k any) string {
 		return "L:?"
 	case strings.HasPrefix(s, "incremental.ZeroQuery"):
 		return "Z"
-	case strings.HasPrefix(s, "queries.FDS{"), strings.HasPrefix(s, "queries.FDP{"):
-		return ""
+	case strings.HasPrefix(s, "queries.FDS{"):
+		if l, ok := k.(queries.FDS); ok {
+			var ps []string
+			for _, p := range l.Workspace.Paths() {
+				ps = append(ps, strings.TrimSuffix(strings.TrimPrefix(p, "f"), ".proto"))
+			}
+			return "S:" + strings.Join(ps, "+")
+		}
+		return "S:?"
+	case strings.HasPrefix(s, "queries.FDP{"):
+		if l, ok := k.(queries.FDP); ok && l.File != nil {
+			if lab, ok := e.fdpLabel[l.File]; ok {
+				return lab
+			}
+			return "P:unlabelled"
+		}
+		return "P:?"
 	}
 	return "?" + incrqPtrRe.ReplaceAllString(s, "")
 }
 
+// labelFDPs gives every IR file that has an FDP task a stable label.
+func (e *incrqEngine) labelFDPs() {
+	var fresh []*ir.File
+	for _, t := range e.ex.VerifDump() {
+		if l, ok := t.Key.(queries.FDP); ok && l.File != nil {
+			if _, seen := e.fdpLabel[l.File]; !seen {
+				fresh = append(fresh, l.File)
+			}
+		}
+	}
+	sort.Slice(fresh, func(i, j int) bool { return fresh[i].Path() < fresh[j].Path() })
+	for _, f := range fresh {
+		p := f.Path()
+		idx := strings.TrimSuffix(strings.TrimPrefix(p, "f"), ".proto")
+		if p == incrqDescriptor {
+			idx = "0"
+		}
+		e.fdpCount[p]++
+		e.fdpLabel[f] = fmt.Sprintf("P:%s#%d", idx, e.fdpCount[p])
+	}
+}
+
 func (e *incrqEngine) keysField() string {
+	e.labelFDPs()
 	var ks []string
 	for _, t := range e.ex.VerifDump() {
 		if t.State != 2 {
@@ -261,6 +314,7 @@ func (e *incrqEngine) keysField() string {
 }
 
 func (e *incrqEngine) dump() string {
+	e.labelFDPs()
 	var parts []string
 	for _, t := range e.ex.VerifDump() {
 		a := e.abstractKey(t.Key)
@@ -545,6 +599,12 @@ func (e *incrqEngine) Gen(r *Rand, tier string) [][]string {
 			"del 1", "evict 1", "link 1,2", "link 2", // remove: missing import / missing workspace file
 			"put 1 - 4", "evict 1", "link 2", "link 1,2", "dump",
 			"put 3 1,2 2", "evict 3", "link 1,2,3", "put 2 - 6", "evict 2", "link 1,2,3", "link 3", "dump"},
+		// an edit that touches ONLY an imported file and changes what the importer's descriptor derives
+		// from name resolution: M1 switches message <-> enum (f2's field r0 changes TYPE_MESSAGE <->
+		// TYPE_ENUM), is renamed away and back; only f1's File key is evicted
+		[]string{"new 2", "put 1 - 0", "put 2 1 2", "put 3 2,1 2", "link 1,2,3", "dump",
+			"put 1 - 10", "evict 1", "link 1,2,3", "link 2", "dump",
+			"put 1 - 0", "evict 1", "link 2,3", "put 1 - 11", "evict 1", "link 1,2,3", "put 1 - 10", "evict 1", "link 3", "dump"},
 		[]string{"new 1", "put 1 - 4", "put 2 - 4", "link 1,2", "put 2 - 0", "evict 2", "link 1,2", "link 2,1", "put 3 2,2,1 2", "evict 3", "link 3", "del 2", "evict 2", "link 3", "dump"},
 	)
 	n := 60
@@ -568,9 +628,12 @@ func (e *incrqEngine) Gen(r *Rand, tier string) [][]string {
 			if r.Chance(1, 10) && len(imps) > 0 {
 				imps = append(imps, imps[0]) // duplicate import
 			}
-			v := r.Intn(10)
-			if r.Chance(1, 2) {
+			v := r.Intn(12)
+			switch {
+			case len(imps) > 0 && r.Chance(1, 2):
 				v = 2 + r.Intn(2) // bias towards files that reference their imports
+			case len(imps) == 0 && r.Chance(1, 2):
+				v = Pick(r, []int{0, 10, 0, 10, 1, 11}) // imported leaves toggle message <-> enum (and rename)
 			}
 			files[i] = incrqFile{imports: imps, v: v, present: true}
 			ops = append(ops, putLine(i, imps, v))
